@@ -261,13 +261,53 @@ pub fn check(thorough: bool, _seed: u64) -> Check {
         classes: vec![],
         bounds: json!({"types": "Piecewise over Poly0, Poly3, Poly8, IntOfLogPoly4", "segments": format!("{:?}", if thorough { "33,100,1000,4095..4097,13107,13108,20000,26214,26215,32768,65535..65537,70000,131073" } else { "33,100,1000,4097,13107,13108,26215,65536,65537,70000" }), "formats": FORMATS}),
     };
+    // regularly spaced breakpoints (a compact "grid" encoding would have to reproduce every end bit for bit): ends built by a
+    // running sum and by multiplication, dyadic and non-dyadic steps
+    let grids = Phase {
+        name: "regular-grids",
+        units: 2 * FORMATS.len(),
+        split: 1,
+        body: Box::new(move |unit, cx| {
+            let fmt = unit % FORMATS.len();
+            let n = [2usize, 7, 8, 9, 16, 33, 100, 257][cx.choose(8)];
+            let h = [0.1, 0.3, 0.7, 0.01, 0.25, 1e-3, 3.0][cx.choose(7)];
+            let start = [0.0, 0.1, -0.4, 1e3][cx.choose(4)];
+            let ends: Vec<f64> = if cx.flag() {
+                let mut x = start;
+                (0..n).map(|_| { x += h; x }).collect()
+            } else {
+                (0..n).map(|i| start + h * (i + 1) as f64).collect()
+            };
+            cx.nontrivial();
+            cx.evals(1);
+            if cx.sampling() {
+                cx.sample(json!({"segments": n, "step": h, "start": start, "format": FORMATS[fmt]}));
+            }
+            let r = if unit / FORMATS.len() == 0 {
+                let nums: Vec<f64> = ends.iter().flat_map(|&e| [e, 1.5 + e]).collect();
+                let v = pw_from_nums::<Poly0>(&nums);
+                let place = pw_from_nums::<Poly0>(&other_nums(&nums));
+                let r = guard(|| trip_in(&v, fmt, place));
+                finish(&v, r, &nums, |b| pw_nums(b), fmt)
+            } else {
+                let nums: Vec<f64> = ends.iter().flat_map(|&e| [e, 1.5, -2.25 * e, 0.125, 3.0]).collect();
+                let v = pw_from_nums::<Poly3>(&nums);
+                let place = pw_from_nums::<Poly3>(&other_nums(&nums));
+                let r = guard(|| trip_in(&v, fmt, place));
+                finish(&v, r, &nums, |b| pw_nums(b), fmt)
+            };
+            r.map_err(|(what, d)| Fail::new(format!("Piecewise with {n} regularly spaced ends: {what}"), json!({"ends": fjs(&ends), "format": FORMATS[fmt], "observation": if d.to_string().len() > 3000 { json!("(omitted)") } else { d }})))
+        }),
+        classes: vec![],
+        bounds: json!({"types": "Piecewise<Poly0>, Piecewise<Poly3>", "segments": "2,7,8,9,16,33,100,257", "ends": "start + running sum of h, and start + h*i; h in {0.1,0.3,0.7,0.01,0.25,1e-3,3}; start in {0,0.1,-0.4,1e3}", "formats": FORMATS}),
+    };
     let mut extra = serde_json::Map::new();
     extra.insert("serde_types".into(), json!(names));
     Check {
         id: "C18",
         rule: "choice tree: (type, format) unit x number contents; each leaf serializes one real value and deserializes it again; non-trivial = contents with a zero, subnormal, extreme or infinite number".into(),
         assumptions: vec!["serde_json (feature float_roundtrip), serde_cbor and borsh are the environment the property is stated against".into()],
-        phases: vec![ph, many],
+        phases: vec![ph, many, grids],
         extra,
         controls: vec![("bit comparison distinguishes -0.0 from 0.0", Box::new(|| if all_bits_eq(&[0.0], &[-0.0]) { Err("not live".into()) } else { Ok(()) }))],
     }
